@@ -629,6 +629,13 @@ class TypeEnv:
                 if f.attr == "encode":
                     return ty("bytes")
                 return None
+            if rt is None and f.attr == "encode" and not isinstance(f.value, ast.Name):
+                return ty("bytes")  # (of the values this package handles only text has `.encode(...)`)
+            if rt is None and f.attr == "decode" and not (isinstance(f.value, ast.Name) and f.value.id in ("codecs", "json", "base64")):
+                return ty("str")    # (`<bytes>.decode(...)`)
+            if isinstance(f.value, ast.Name) and f.value.id == "codecs" and f.attr == "decode" and len(e.args) >= 2 and isinstance(e.args[1], ast.Constant) \
+                    and str(e.args[1].value).replace("_", "-") == "unicode-escape":
+                return ty("str")
         ft = self.expr_type(fn, f, env)
         if ft is None:
             return None
